@@ -99,12 +99,21 @@ static void producer_step()
   if (kind == 0) { q->commit_write(); g_committed = g_written; }
 }
 
+// the consumer never publishes a position ahead of what it has finished reading
+static void sync_pub(QT* q, POS before)
+{
+  POS after = static_cast<POS>(vra_load(&q->_atomic_reader_pos, sizeof(POS) * 8, 0));   // own location: latest
+  VASSERT(after == before || after == q->_reader_pos);
+  g_pub_reader = after;
+}
+
 static void consumer_step()
 {
   QT* q = g_q;
   vra_set_thread(1);
+  POS before = g_pub_reader;
   std::byte* p = q->prepare_read();
-  if (!p) return;
+  if (!p) { sync_pub(q, before); return; }
   // --- never visible before its commit; none lost / duplicated / reordered
   VASSERT(g_read < g_committed);
   if (!(g_read < g_committed)) return;
@@ -115,17 +124,12 @@ static void consumer_step()
   VASSERT(g_storage[off] == r.len);            // intact (not torn, not overwritten)
   if (r.len > 1) { vra_na_read(off + r.len - 1); VASSERT(g_storage[off + r.len - 1] == r.tag); }
   vobs(r.len); vobs(r.tag);
+  sync_pub(q, before);                          // nothing may be published while the record is still being read
+  VASSERT(g_pub_reader == before);
   q->finish_read(r.len);
   g_read++;
-  if (vnd_range(0, 1))
-  {
-    POS before = static_cast<POS>(vra_load(&q->_atomic_reader_pos, sizeof(POS) * 8, 0));
-    q->commit_read();
-    POS after = static_cast<POS>(vra_load(&q->_atomic_reader_pos, sizeof(POS) * 8, 0));
-    // the consumer never publishes a position ahead of what it finished reading
-    VASSERT(after == before || after == q->_reader_pos);
-    g_pub_reader = after;
-  }
+  if (vnd_range(0, 1)) q->commit_read();
+  sync_pub(q, before);
 }
 
 extern "C" void h_spsc_bmc()
@@ -171,4 +175,70 @@ extern "C" void h_ctor()
   VASSERT(req == 0 || cap < static_cast<POS>(2 * req) || cap == 1);
   VASSERT(q->_writer_pos == 0 && q->_reader_pos == 0);
   VWITNESS(cap == 32 && q->_bytes_per_batch == 16);
+}
+
+// ---- C09: once the consumer has drained the queue (through the real read path, with the backend's commit
+// policy: finish_read per record, one commit_read after the batch, then an idle poll that finds the queue
+// empty) a reservation of ANY size up to the capacity must be granted.  Latest-value memory semantics
+// (liveness premise: the producer eventually observes the consumer's last publication).
+#ifndef NREC
+  #define NREC 2
+#endif
+extern "C" void h_drained()
+{
+  POS w0;
+#ifdef WRAPWIN
+  uint64_t d = vnd_range(0, 4 * CAP);
+  w0 = vnd_range(0, 1) ? static_cast<POS>(0 - d) : static_cast<POS>(d);
+#else
+  w0 = static_cast<POS>(vnd_u64());
+#endif
+  POS batch = static_cast<POS>(vnd_range(0, CAP));
+  POS lag = static_cast<POS>(vnd_range(0, CAP));
+  POS stale = static_cast<POS>(vnd_range(0, CAP));
+#ifdef DRAINED_PUBLISHED
+  VASSUME(lag == 0);                 // strengthened invariant of a drained+idle state (holds once the idle poll publishes)
+#else
+  VASSUME(batch == 0 ? lag == 0 : lag < batch);
+#endif
+  VASSUME(static_cast<uint32_t>(lag) + stale <= CAP);
+  QT* q = make_queue(w0, lag, stale, batch);
+  // history: up to NREC records written (any sizes that are granted) ...
+  uint32_t nw = 0; POS total = 0;
+  for (uint32_t i = 0; i < NREC; i++)
+  {
+    POS n = static_cast<POS>(vnd_range(0, CAP));
+    if (n == 0) continue;
+    std::byte* p = q->prepare_write(n);
+    if (!p) continue;
+    *reinterpret_cast<unsigned char*>(p) = static_cast<unsigned char>(n);
+    q->finish_write(n); q->commit_write(); nw++; total = static_cast<POS>(total + n);
+  }
+  // ... all consumed by the backend's read loop
+  uint32_t nr = 0; POS read = 0;
+  for (uint32_t i = 0; i < NREC + 1; i++)
+  {
+    std::byte* p = q->prepare_read();
+    if (!p) break;
+    POS n = *reinterpret_cast<unsigned char*>(p);
+    q->finish_read(n); nr++; read = static_cast<POS>(read + n);
+  }
+  if (nr != 0) q->commit_read();
+  VASSERT(nr == nw && read == total);
+  // idle poll: the backend looks again and finds nothing
+  VASSERT(q->prepare_read() == nullptr);
+  VASSERT(q->empty());
+  // the drained state satisfies the invariant assumed above (so histories of any length are covered)
+  POS pub = *reinterpret_cast<POS*>(&q->_atomic_reader_pos);
+  POS newlag = static_cast<POS>(q->_reader_pos - pub);
+#ifdef DRAINED_PUBLISHED
+  VASSERT(newlag == 0);
+#else
+  VASSERT(batch == 0 ? newlag == 0 : newlag < batch);
+#endif
+  // now ANY fitting reservation must be granted
+  POS n = static_cast<POS>(vnd_range(1, CAP));
+  std::byte* p = q->prepare_write(n);
+  VWITNESS(nr == NREC && n == CAP && p != nullptr && lag != 0);
+  VASSERT(p != nullptr);
 }
